@@ -223,6 +223,9 @@ func fetchCryptoKeys(b db.Bucket) ([]byte, []byte, []byte, error) {
 	// Load the crypto private key parameters if they were stored.
 	var privKey []byte
 	val, err = b.Get(cryptoPrivKeyName)
+	if err != nil {
+		return nil, nil, nil, err
+	}
 	if val != nil {
 		privKey = make([]byte, len(val))
 		copy(privKey, val)
@@ -231,6 +234,9 @@ func fetchCryptoKeys(b db.Bucket) ([]byte, []byte, []byte, error) {
 	// Load the crypto script key parameters if they were stored.
 	var entropyKey []byte
 	val, err = b.Get(cryptoEntropyKeyName)
+	if err != nil {
+		return nil, nil, nil, err
+	}
 	if val != nil {
 		entropyKey = make([]byte, len(val))
 		copy(entropyKey, val)
